@@ -119,3 +119,468 @@ where
     });
     records.into_inner().unwrap()
 }
+
+// ------------------------------------------------------------------------------------------------
+// C07: the production beneficiary history (`crate::beneficiary::Beneficiary`) under concurrent
+// record / record_estimate / invalidate / resolve_before / validate.
+//
+// Every entry operation is atomic under the simulator (one switch BEFORE the entry lock, none inside
+// and none on release), so the driver keeps an exact sequential model of every entry, updated
+// immediately after each operation returns (no schedule point in between): return values are compared
+// with the model at once. Scans (`resolve_before`, `validate`) are NOT atomic - they read one entry
+// at a time, newest first - so a scan result is checked against the model's *timeline*: there must
+// be non-decreasing read instants inside the scan's interval at which each entry it reports had
+// exactly the reported version, and the returned account must be the in-order fold of exactly those
+// versions' effects over the snapshot they end in, or over the block anchor. After all tasks have
+// joined, every read is validated once more: a read that still validates must equal the in-order
+// fold of the final entries.
+// ------------------------------------------------------------------------------------------------
+
+use crate::beneficiary::{Beneficiary, DeferredBeneficiaryReward, SpeculativeResult};
+use crate::scheduler::verif_drivers::DriverReport;
+use revm_context::result::{ExecutionResult, Output, ResultAndState, ResultGas, SuccessReason};
+use revm_state::{Account, AccountInfo, AccountStatus};
+use std::cell::RefCell;
+
+#[derive(Clone, Debug, PartialEq, Eq)]
+pub enum HistEffect {
+    Estimate,
+    Unchanged,
+    /// deferred non-zero reward
+    Reward(U256),
+    /// absolute post-state of the beneficiary written by the transaction itself (None = deleted)
+    Snapshot(Option<(U256, u64)>),
+}
+
+#[derive(Clone, Debug)]
+pub enum HistOp {
+    Record { tx: usize, inc: usize, effect: HistEffect },
+    Invalidate { tx: usize, inc: usize },
+    Resolve { t: usize },
+    /// re-validate this task's k-th earlier read while writers may still be active
+    Revalidate { k: usize },
+    Yield,
+}
+
+#[derive(Clone, Debug)]
+pub struct HistScenario {
+    pub n: usize,
+    pub anchor: Option<(U256, u64)>,
+    pub tasks: Vec<Vec<HistOp>>,
+}
+
+#[derive(Clone, Debug, PartialEq, Eq)]
+struct EntryModel {
+    inc: usize,
+    effect: HistEffect,
+}
+
+struct HistModel {
+    /// per entry: (time from which the state holds, state); time = number of completed mutations
+    timeline: Vec<Vec<(usize, EntryModel)>>,
+    now: usize,
+    violations: Vec<(&'static str, String)>,
+    reads: Vec<HistRead>,
+    oplog: Vec<String>,
+}
+
+struct HistRead {
+    task: usize,
+    t: usize,
+    start: usize,
+    end: usize,
+    result: Result<(Option<AccountInfo>, crate::beneficiary::BeneficiaryReadVersion, Vec<(usize, usize)>), usize>,
+}
+
+fn hist_info(v: &Option<(U256, u64)>) -> Option<AccountInfo> {
+    v.map(|(balance, nonce)| AccountInfo { balance, nonce, ..Default::default() })
+}
+
+fn parse_origins(version: &crate::beneficiary::BeneficiaryReadVersion) -> Vec<(usize, usize)> {
+    // `origins` is private; its Debug rendering is `TxVersion { txid: A, incarnation: B }` per element
+    let text = format!("{version:?}");
+    let mut out = Vec::new();
+    let mut rest = text.as_str();
+    while let Some(p) = rest.find("txid: ") {
+        rest = &rest[p + 6..];
+        let a: usize = rest.chars().take_while(|c| c.is_ascii_digit()).collect::<String>().parse().unwrap();
+        let q = rest.find("incarnation: ").unwrap();
+        rest = &rest[q + 13..];
+        let b: usize = rest.chars().take_while(|c| c.is_ascii_digit()).collect::<String>().parse().unwrap();
+        out.push((a, b));
+    }
+    out
+}
+
+impl HistModel {
+    fn state_at(&self, tx: usize, time: usize) -> &EntryModel {
+        let tl = &self.timeline[tx];
+        let mut cur = &tl[0].1;
+        for (from, st) in tl {
+            if *from <= time {
+                cur = st;
+            } else {
+                break;
+            }
+        }
+        cur
+    }
+
+    fn current(&self, tx: usize) -> EntryModel {
+        self.timeline[tx].last().unwrap().1.clone()
+    }
+
+    fn mutate(&mut self, tx: usize, st: EntryModel) {
+        self.now += 1;
+        let now = self.now;
+        self.timeline[tx].push((now, st));
+    }
+
+    /// earliest instant in [from, to] at which `pred(state of tx)` holds
+    fn earliest(&self, tx: usize, from: usize, to: usize, pred: &dyn Fn(&EntryModel) -> bool) -> Option<usize> {
+        // states only change at timeline instants: candidates are `from` and every change in (from, to]
+        if pred(self.state_at(tx, from)) {
+            return Some(from);
+        }
+        for (time, st) in &self.timeline[tx] {
+            if *time > from && *time <= to && pred(st) {
+                return Some(*time);
+            }
+        }
+        None
+    }
+
+    /// in-order fold of the given exact versions (newest first) over their base
+    fn fold(&self, anchor: &Option<(U256, u64)>, chain_newest_first: &[(usize, EntryModel)]) -> Result<Option<AccountInfo>, String> {
+        let mut base = hist_info(anchor);
+        let mut rewards: Vec<U256> = Vec::new();
+        for (i, (tx, st)) in chain_newest_first.iter().enumerate() {
+            match &st.effect {
+                HistEffect::Estimate => return Err(format!("origin tx {tx} is an estimate")),
+                HistEffect::Unchanged => {}
+                HistEffect::Reward(a) => rewards.push(*a),
+                HistEffect::Snapshot(s) => {
+                    if i + 1 != chain_newest_first.len() {
+                        return Err(format!("origin chain continues below the snapshot of tx {tx}"));
+                    }
+                    base = hist_info(s);
+                }
+            }
+        }
+        let mut acc = base;
+        for a in rewards.into_iter().rev() {
+            let mut info = acc.unwrap_or_default();
+            if let Some(b) = info.balance.checked_add(a) {
+                info.balance = b;
+            }
+            acc = Some(info);
+        }
+        Ok(acc)
+    }
+}
+
+pub fn beneficiary_history(sc: &HistScenario) -> DriverReport {
+    struct Shared(RefCell<HistModel>);
+    // SAFETY: all simulator tasks run on one OS thread and never switch while the borrow is alive
+    unsafe impl Sync for Shared {}
+    let address = Address::repeat_byte(0xbe);
+    let beneficiary = Beneficiary::new(address, hist_info(&sc.anchor), sc.n);
+    let shared = Shared(RefCell::new(HistModel {
+        timeline: (0..sc.n).map(|_| vec![(0usize, EntryModel { inc: 0, effect: HistEffect::Estimate })]).collect(),
+        now: 0,
+        violations: Vec::new(),
+        reads: Vec::new(),
+        oplog: Vec::new(),
+    }));
+    let result_of = |effect: &HistEffect| -> SpeculativeResult {
+        let mut state = revm_primitives::AddressMap::default();
+        let mut deferred = None;
+        match effect {
+            HistEffect::Reward(a) => deferred = Some(DeferredBeneficiaryReward::for_verif(*a)),
+            HistEffect::Snapshot(s) => {
+                let mut account = Account::default();
+                match s {
+                    Some((balance, nonce)) => {
+                        account.info = AccountInfo { balance: *balance, nonce: *nonce, ..Default::default() };
+                        account.status = AccountStatus::Touched;
+                    }
+                    None => account.status = AccountStatus::Touched | AccountStatus::SelfDestructed,
+                }
+                state.insert(address, account);
+            }
+            _ => {}
+        }
+        let rs = ResultAndState {
+            result: ExecutionResult::Success { reason: SuccessReason::Stop, gas: ResultGas::default().with_total_gas_spent(21_000), logs: Vec::new(), output: Output::Call(Bytes::new()) },
+            state,
+        };
+        match deferred {
+            Some(d) => SpeculativeResult::deferred(rs, d),
+            None => SpeculativeResult::settled(rs),
+        }
+    };
+    rt::set_current_role(rt::ROLE_AUX);
+    thread::scope(|scope| {
+        for (task, ops) in sc.tasks.iter().enumerate() {
+            let shared = &shared;
+            let beneficiary = &beneficiary;
+            let result_of = &result_of;
+            scope.spawn(move || {
+                rt::set_current_role(rt::ROLE_WORKER);
+                let mut my_reads: Vec<usize> = Vec::new();
+                for op in ops {
+                    match op {
+                        HistOp::Yield => thread::yield_now(),
+                        HistOp::Record { tx, inc, effect } => {
+                            let version = crate::TxVersion::new(*tx, *inc);
+                            let ok = if *effect == HistEffect::Estimate {
+                                beneficiary.record_estimate(&version)
+                            } else {
+                                beneficiary.record_execution(&version, &result_of(effect))
+                            };
+                            // --- no schedule point from here to the end of the arm ---
+                            let mut m = shared.0.borrow_mut();
+                            let cur = m.current(*tx);
+                            let expect = *inc > cur.inc;
+                            m.oplog.push(format!("t{task}:record({tx},{inc},{effect:?})={ok}"));
+                            if ok != expect {
+                                let log = m.oplog.clone();
+                                m.violations.push(("history.record_result", format!("record(tx {tx}, incarnation {inc}) returned {ok} while the entry held incarnation {}; ops {log:?}", cur.inc)));
+                            }
+                            if expect {
+                                m.mutate(*tx, EntryModel { inc: *inc, effect: effect.clone() });
+                            }
+                        }
+                        HistOp::Invalidate { tx, inc } => {
+                            let ok = beneficiary.invalidate(&crate::TxVersion::new(*tx, *inc));
+                            let mut m = shared.0.borrow_mut();
+                            let cur = m.current(*tx);
+                            let expect = cur.inc == *inc;
+                            m.oplog.push(format!("t{task}:invalidate({tx},{inc})={ok}"));
+                            if ok != expect {
+                                let log = m.oplog.clone();
+                                m.violations.push(("history.invalidate_result", format!("invalidate(tx {tx}, incarnation {inc}) returned {ok} while the entry held incarnation {}; ops {log:?}", cur.inc)));
+                            }
+                            if expect && cur.effect != HistEffect::Estimate {
+                                m.mutate(*tx, EntryModel { inc: *inc, effect: HistEffect::Estimate });
+                            }
+                        }
+                        HistOp::Resolve { t } => {
+                            let start = shared.0.borrow().now;
+                            let r = beneficiary.resolve_before(*t);
+                            let mut m = shared.0.borrow_mut();
+                            let end = m.now;
+                            let result = match r {
+                                Ok(read) => {
+                                    let (account, version) = read.into_parts();
+                                    let origins = parse_origins(&version);
+                                    Ok((account, version, origins))
+                                }
+                                Err(b) => Err(b),
+                            };
+                            m.oplog.push(format!(
+                                "t{task}:resolve_before({t})@[{start},{end}]={}",
+                                match &result {
+                                    Ok((a, _, o)) => format!("Ok(balance {:?}, origins {o:?})", a.as_ref().map(|i| i.balance)),
+                                    Err(b) => format!("Err({b})"),
+                                }
+                            ));
+                            my_reads.push(m.reads.len());
+                            m.reads.push(HistRead { task, t: *t, start, end, result });
+                        }
+                        HistOp::Revalidate { k } => {
+                            if let Some(&ri) = my_reads.get(*k) {
+                                let (t, version) = {
+                                    let m = shared.0.borrow();
+                                    match &m.reads[ri].result {
+                                        Ok((_, v, _)) => (m.reads[ri].t, Some(v.clone())),
+                                        Err(_) => (0, None),
+                                    }
+                                };
+                                if let Some(v) = version {
+                                    let _ = beneficiary.validate(t, &v);
+                                }
+                            }
+                        }
+                    }
+                }
+            });
+        }
+    });
+
+    // ---- quiescent checks (single task, no concurrency left) ----
+    let _g = rt::no_switch();
+    let mut m = shared.0.into_inner();
+    let mut report = DriverReport::default();
+    let mut h = 0xcbf2_9ce4_8422_2325u64;
+    let mix = |h: &mut u64, v: u64| {
+        *h ^= v;
+        *h = h.wrapping_mul(0x0000_0100_0000_01b3);
+    };
+    let mut overlapped = 0u64;
+    let reads = std::mem::take(&mut m.reads);
+    for rd in &reads {
+        if rd.end > rd.start {
+            overlapped += 1;
+        }
+        mix(&mut h, (rd.t as u64) << 8 | (rd.end - rd.start) as u64);
+        match &rd.result {
+            Ok((account, _version, origins)) => {
+                // shape: contiguous descending from t-1
+                let mut time = rd.start;
+                let mut chain: Vec<(usize, EntryModel)> = Vec::new();
+                let mut bad: Option<String> = None;
+                for (i, (tx, inc)) in origins.iter().enumerate() {
+                    if *tx + i + 1 != rd.t {
+                        bad = Some(format!("origins are not contiguous below {}: {origins:?}", rd.t));
+                        break;
+                    }
+                    let inc_ = *inc;
+                    match m.earliest(*tx, time, rd.end, &|st: &EntryModel| st.inc == inc_ && st.effect != HistEffect::Estimate) {
+                        Some(at) => {
+                            time = at;
+                            chain.push((*tx, m.state_at(*tx, at).clone()));
+                        }
+                        None => {
+                            bad = Some(format!("entry {tx} never held exact incarnation {inc} at a read instant in [{time},{}] compatible with a newest-first scan", rd.end));
+                            break;
+                        }
+                    }
+                }
+                if bad.is_none() {
+                    let ends_in_snapshot = chain.last().is_some_and(|(_, st)| matches!(st.effect, HistEffect::Snapshot(_)));
+                    if !ends_in_snapshot && origins.len() != rd.t {
+                        bad = Some(format!("origin chain {origins:?} stops above transaction 0 without a snapshot"));
+                    }
+                }
+                if bad.is_none() {
+                    match m.fold(&sc.anchor, &chain) {
+                        Ok(expected) => {
+                            if expected != *account {
+                                bad = Some(format!(
+                                    "account {:?} is not the in-order fold {:?} of its origins {origins:?}",
+                                    account.as_ref().map(|i| (i.balance, i.nonce)),
+                                    expected.as_ref().map(|i| (i.balance, i.nonce))
+                                ));
+                            }
+                        }
+                        Err(e) => bad = Some(e),
+                    }
+                }
+                if let Some(b) = bad {
+                    report.violations.push(("history.read_inconsistent", format!("task {} resolve_before({}) during [{},{}]: {b}; ops {:?}", rd.task, rd.t, rd.start, rd.end, m.oplog)));
+                }
+            }
+            Err(blocker) => {
+                // entries t-1 .. blocker+1 exact and not a snapshot, then `blocker` an estimate, at non-decreasing instants
+                let mut time = rd.start;
+                let mut bad: Option<String> = None;
+                if *blocker >= rd.t {
+                    bad = Some(format!("blocker {blocker} is not below the reader {}", rd.t));
+                } else {
+                    for tx in ((*blocker + 1)..rd.t).rev() {
+                        match m.earliest(tx, time, rd.end, &|st: &EntryModel| !matches!(st.effect, HistEffect::Estimate | HistEffect::Snapshot(_))) {
+                            Some(at) => time = at,
+                            None => {
+                                bad = Some(format!("entry {tx} was never an exact non-snapshot value when the scan passed it"));
+                                break;
+                            }
+                        }
+                    }
+                    if bad.is_none() && m.earliest(*blocker, time, rd.end, &|st: &EntryModel| st.effect == HistEffect::Estimate).is_none() {
+                        bad = Some(format!("entry {blocker} was never an estimate in [{time},{}]", rd.end));
+                    }
+                }
+                if let Some(b) = bad {
+                    report.violations.push(("history.blocker_inconsistent", format!("task {} resolve_before({}) = Err({blocker}) during [{},{}]: {b}; ops {:?}", rd.task, rd.t, rd.start, rd.end, m.oplog)));
+                }
+            }
+        }
+    }
+    // final entries: what the history serves now must be the in-order fold of the model's final states
+    let final_chain = |t: usize| -> Result<Vec<(usize, EntryModel)>, usize> {
+        let mut chain = Vec::new();
+        for tx in (0..t).rev() {
+            let st = m.current(tx);
+            if st.effect == HistEffect::Estimate {
+                return Err(tx);
+            }
+            let snap = matches!(st.effect, HistEffect::Snapshot(_));
+            chain.push((tx, st));
+            if snap {
+                break;
+            }
+        }
+        Ok(chain)
+    };
+    for t in 0..=sc.n {
+        let actual = beneficiary.resolve_before(t);
+        let expected = final_chain(t);
+        match (actual, expected) {
+            (Err(a), Err(e)) if a == e => {}
+            (Ok(read), Ok(chain)) => {
+                let (account, version) = read.into_parts();
+                let origins = parse_origins(&version);
+                let want: Vec<(usize, usize)> = chain.iter().map(|(tx, st)| (*tx, st.inc)).collect();
+                let fold = m.fold(&sc.anchor, &chain).ok().flatten();
+                if origins != want || account != fold {
+                    report.violations.push((
+                        "history.final_state",
+                        format!(
+                            "after quiescence resolve_before({t}) = (balance {:?}, origins {origins:?}) but the operations performed leave (balance {:?}, origins {want:?}); ops {:?}",
+                            account.as_ref().map(|i| i.balance),
+                            fold.as_ref().map(|i| i.balance),
+                            m.oplog
+                        ),
+                    ));
+                }
+            }
+            (a, e) => {
+                report.violations.push((
+                    "history.final_state",
+                    format!("after quiescence resolve_before({t}) = {:?} but the operations performed leave {:?}; ops {:?}", a.map(|r| parse_origins(&r.into_parts().1)), e.map(|c| c.iter().map(|(tx, st)| (*tx, st.inc)).collect::<Vec<_>>()), m.oplog),
+                ));
+            }
+        }
+    }
+    // a read that still validates after quiescence must equal the in-order fold of the final entries
+    let mut still_valid = 0u64;
+    let mut invalidated = 0u64;
+    for rd in &reads {
+        if let Ok((account, version, origins)) = &rd.result {
+            let v = beneficiary.validate(rd.t, version);
+            if v.is_valid() {
+                still_valid += 1;
+                let expected = final_chain(rd.t).ok().and_then(|c| m.fold(&sc.anchor, &c).ok());
+                if expected.as_ref() != Some(account) {
+                    report.violations.push((
+                        "history.stale_read_validates",
+                        format!(
+                            "task {} read balance {:?} before transaction {} (origins {origins:?}); the read still validates after quiescence although in-order resolution of the final entries gives {:?}; ops {:?}",
+                            rd.task,
+                            account.as_ref().map(|i| i.balance),
+                            rd.t,
+                            expected.map(|e| e.map(|i| i.balance)),
+                            m.oplog
+                        ),
+                    ));
+                }
+            } else {
+                invalidated += 1;
+            }
+        }
+    }
+    report.violations.append(&mut m.violations);
+    mix(&mut h, m.now as u64);
+    mix(&mut h, still_valid << 8 | invalidated);
+    report.behaviour = h;
+    report.nontrivial = overlapped > 0;
+    report.counters = vec![
+        ("probe.hist_reads", reads.len() as u64),
+        ("probe.hist_reads_overlapping_a_mutation", overlapped),
+        ("probe.hist_reads_still_valid_at_quiescence", still_valid),
+        ("probe.hist_reads_invalidated_at_quiescence", invalidated),
+        ("probe.hist_mutations", m.now as u64),
+    ];
+    report
+}
